@@ -113,6 +113,7 @@ def _strip_not(c):
 
 ARRAY_METHODS = ("min", "max", "ravel", "reshape")
 POS_NEG = {v: k for k, v in NEG_CMP.items()}
+NEG_ORD = {"<": ">=", "<=": ">", ">": "<=", ">=": "<"}
 MIRROR = {"==": "==", "!=": "!=", "<": ">", ">": "<", "<=": ">=", ">=": "<=", "is": "is", "isnot": "isnot"}
 
 
@@ -123,6 +124,13 @@ def literal(c, val):
     v = (not val) if neg else val
     if c2[0] == "cmp" and c2[1] in POS_NEG and not v:
         return ("cmp", POS_NEG[c2[1]], c2[2], c2[3]), True
+    if c2[0] == "cmp" and c2[1] in NEG_ORD and not v:
+        # `not (a <= b)` is recorded as `a > b` (they differ for NaN operands only, which no rule about a guard depends on), in the
+        # canonical orientation of comparisons
+        op, a, b = NEG_ORD[c2[1]], c2[2], c2[3]
+        if (is_const(a) and not is_const(b)) or (op in ("<", "<=") and is_const(a) == is_const(b)):
+            a, b, op = b, a, MIRROR[op]
+        return ("cmp", op, a, b), True
     return c2, v
 
 
